@@ -25,7 +25,7 @@ Lemma relocate_fields_copy_src sbid bid L : forall fl ms m d,
   fst (fst (relocate_fields false L fl sbid bid ms m d)) = ms.
 Proof.
   induction L as [|p L IH]; intros fl ms m d; [reflexivity|]. destruct fl as [|[a c] fl]; [reflexivity|].
-  cbn [relocate_fields]. destruct (ntc p).
+  cbn [relocate_fields]. destruct (ntc _ p).
   - pose proof (relocate_objs_copy_src p sbid bid (Z.to_nat c) ms m a (a + d)) as H.
     destruct (relocate_objs false p sbid bid ms m a (a + d) (Z.to_nat c)) as [[ms1 m1] e1]. cbn [fst] in H. subst ms1.
     specialize (IH fl ms m1 d). destruct (relocate_fields false L fl sbid bid ms m1 d) as [[a2 b2] c2]. exact IH.
@@ -45,7 +45,7 @@ Qed.
 Lemma insert_into_copy_src L v bid junk : fst (fst (insert_into false false L v bid junk)) = v.
 Proof.
   unfold insert_into. cbn [negb orb andb]. rewrite andb_true_r.
-  destruct (all_ctriv L); [reflexivity|].
+  destruct (all_ctriv _ L); [reflexivity|].
   pose proof (relocate_elems_copy_src L bid (Z.to_nat (vsize L v)) v (mcopy (v_mem v) 0 junk 0 (dend L v)) 0) as H.
   destruct (relocate_elems false L v bid _ 0 _) as [[s1 m1] e1]. exact H.
 Qed.
@@ -113,9 +113,9 @@ Section NtWorld.
       rewrite Hpm. destruct R as [offs R].
       assert (Hsrc : forall bid jk, exists ms, fst (fst (insert_into true false L src bid jk)) = set_mem src ms).
       { intros bid jk. unfold insert_into. cbn [negb orb andb]. rewrite andb_true_r.
-        destruct (all_ctriv L); [exists (v_mem src); cbn [fst]; symmetry; apply set_mem_same|].
+        destruct (all_ctriv _ L); [exists (v_mem src); cbn [fst]; symmetry; apply set_mem_same|].
         rewrite (rep_vsize L src l offs R), Nat2Z.id.
-        destruct (relocate_elems_src L Hwf true bid src l offs R (length l) 0 (v_mem src) (mcopy (v_mem src) 0 jk 0 (dend L src))
+        destruct (relocate_elems_src L Hwf bid src l offs R (length l) 0 (v_mem src) (mcopy (v_mem src) 0 jk 0 (dend L src))
                     ltac:(lia) ltac:(intros; reflexivity) ltac:(intros; lia)) as (msf & E & _).
         rewrite set_mem_same in E. change (Z.of_nat 0) with 0 in E.
         destruct (relocate_elems true L src bid _ 0 (length l)) as [[s1 m1] e1]. cbn [fst] in *. exists msf. exact E. }
